@@ -11,9 +11,12 @@ import (
 	"crypto/sha256"
 	"fmt"
 	"go/ast"
+	"go/parser"
 	"go/printer"
 	"go/token"
+	"os"
 	"path/filepath"
+	"sort"
 	"strconv"
 	"strings"
 )
@@ -493,6 +496,7 @@ func genC15() {
 	runGen("c15etcd", genC15Etcd)
 	runGen("c15ticker", genC15Ticker)
 	runGen("c15arith", genC15Arith)
+	runGen("c15globals", genC15Globals)
 	fset, f := parseFile("pkg/cluster/redis_election.go")
 	// glue facts: Renew and Leader bodies (printed, whitespace-normalised)
 	for _, m := range []string{"Renew", "Leader"} {
@@ -760,4 +764,86 @@ func c15FilterStmts(in []ast.Stmt) []ast.Stmt {
 		out = append(out, st)
 	}
 	return out
+}
+
+
+// genC15Globals (dimension audit): process-global state of the election code - every package-level `var` of
+// pkg/cluster (default build, non-test files) that is ASSIGNED, incremented or addressed inside a function body
+// (written after init). Fact lease_pkg_globals_written; the harness has first-use / concurrent-use cases only if
+// this list is non-empty.
+func genC15Globals() {
+	dir := filepath.Join(*repo, "pkg", "cluster")
+	ents, err := os.ReadDir(dir)
+	if err != nil {
+		die("pkg/cluster: %v", err)
+	}
+	globals := map[string]bool{}
+	var files []*ast.File
+	fset := token.NewFileSet()
+	for _, e := range ents {
+		n := e.Name()
+		if e.IsDir() || !strings.HasSuffix(n, ".go") || strings.HasSuffix(n, "_test.go") {
+			continue
+		}
+		f, err := parser.ParseFile(fset, filepath.Join(dir, n), nil, 0)
+		if err != nil {
+			die("parse %s: %v", n, err)
+		}
+		files = append(files, f)
+		for _, d := range f.Decls {
+			if gd, ok := d.(*ast.GenDecl); ok && gd.Tok == token.VAR {
+				for _, sp := range gd.Specs {
+					for _, id := range sp.(*ast.ValueSpec).Names {
+						globals[id.Name] = true
+					}
+				}
+			}
+		}
+	}
+	written := map[string]bool{}
+	for _, f := range files {
+		for _, d := range f.Decls {
+			fd, ok := d.(*ast.FuncDecl)
+			if !ok || fd.Body == nil {
+				continue
+			}
+			ast.Inspect(fd.Body, func(n ast.Node) bool {
+				mark := func(e ast.Expr) {
+					if id, ok := e.(*ast.Ident); ok && globals[id.Name] && id.Obj == nil {
+						written[id.Name] = true
+					}
+				}
+				switch st := n.(type) {
+				case *ast.AssignStmt:
+					if st.Tok != token.DEFINE {
+						for _, l := range st.Lhs {
+							mark(l)
+						}
+					}
+				case *ast.IncDecStmt:
+					mark(st.X)
+				case *ast.UnaryExpr:
+					if st.Op == token.AND {
+						mark(st.X)
+					}
+				}
+				return true
+			})
+		}
+	}
+	var names []string
+	for n := range written {
+		names = append(names, n)
+	}
+	sort.Strings(names)
+	if names == nil {
+		names = []string{}
+	}
+	facts["lease_pkg_globals_written"] = names
+	var all []string
+	for n := range globals {
+		all = append(all, n)
+	}
+	sort.Strings(all)
+	facts["lease_pkg_globals"] = all
 }
